@@ -19,6 +19,7 @@ RULE = (
     "well-formed SIDs S-R-A-s1..sn generated with n in 1..15 (all), R in 0..9 (all), A and s_i from boundary classes "
     "{0,1,5,2^31,2^32-1 / 2^32,2^48-1,random}; near-miss strings from the classes named in the property. distinct = SID "
     "string; non-trivial = not one of the two SIDs used by the repository's tests"
+    " Also: conversions from 8 threads at once; near-misses in other numeral notations (hex, octal, binary, exponent, separators, signs, full-width digits)."
 )
 ASSUMPTIONS = [
     "ref.sd transcribes MS-DTYP 2.4.2.2/2.4.4.2/2.4.5/2.4.6 (calibrated on the real SD of the Windows seed-key vector)",
